@@ -51,6 +51,9 @@ fn report(run: &Run, sig: &str, case: impl FnOnce() -> serde_json::Value, detail
     }
 }
 
+const SIG_TAGGED_MAP: &str = "C05:tag-on-mapping-payload-ignored";
+const SIG_TAGGED_NULL: &str = "C05:tagged-newtype-payload:plain-null-read-as-string";
+
 fn options() -> serde_saphyr::Options {
     serde_saphyr::Options::default()
 }
@@ -235,17 +238,27 @@ fn check_pair(run: &Run, lo: &mut LeafOracle, loc: &mut Local, ty: &Ty, doc: &st
         return false;
     };
     let t1 = std::time::Instant::now();
-    let mut ip = Interp { leaf: lo, bare_nonunit_seen: false, tail_ctx: None };
+    let mut ip = Interp { leaf: lo, bare_nonunit_seen: false, tagged_null_payload_seen: false, tagged_map_payload_seen: false, tail_ctx: None };
     let expect = ip.interp(ty, &rnode);
     let t2 = std::time::Instant::now();
     loc.add("time_us/raw_parse", (t1 - t0).as_micros() as u64);
     loc.add("time_us/interp_and_leaf_oracle", (t2 - t1).as_micros() as u64);
     let bare_nonunit = ip.bare_nonunit_seen;
+    let tagged_null = ip.tagged_null_payload_seen;
+    let tagged_map = ip.tagged_map_payload_seen;
     // One root cause, several symptoms: a bare scalar naming a non-unit variant makes the
     // library read the *following* node as the payload. Any wrongly accepted document that
     // contains such a scalar is classified under this one signature.
     let ok_sig = |default: String| {
-        if bare_nonunit { "C05:bare-name-for-nonunit-variant:following-node-consumed".to_string() } else { default }
+        if tagged_map {
+            SIG_TAGGED_MAP.to_string()
+        } else if bare_nonunit {
+            "C05:bare-name-for-nonunit-variant:following-node-consumed".to_string()
+        } else if tagged_null {
+            SIG_TAGGED_NULL.to_string()
+        } else {
+            default
+        }
     };
     for (text, p) in lo.panics.drain(..) {
         run.violation(
@@ -316,7 +329,8 @@ fn check_pair(run: &Run, lo: &mut LeafOracle, loc: &mut Local, ty: &Ty, doc: &st
             }
         }
         (Expect::MustBe(v), Err(e)) => {
-            report(run, &format!("C05:rejected:{}", vcore::errs::kind(e)), case, || {
+            let sig = if tagged_map { SIG_TAGGED_MAP.to_string() } else { format!("C05:rejected:{}", vcore::errs::kind(e)) };
+            report(run, &sig, case, || {
                 format!("expected Ok({v:?}) | got Err({e})")
             });
         }
@@ -347,6 +361,219 @@ fn check_pair(run: &Run, lo: &mut LeafOracle, loc: &mut Local, ty: &Ty, doc: &st
         run.nontrivial(fnv_parts(&[format!("{ty:?}").as_bytes(), doc.as_bytes(), meta.mode.as_bytes()]));
     }
     true
+}
+
+
+// ------------------------------------------------------------------ part D: the enum notations agree
+
+/// Class of a payload node (for signatures and evidence).
+fn payload_class(n: &Node) -> &'static str {
+    match n {
+        Node::Scalar { text, style: Style::Plain, .. } if text.is_empty() => "plain-empty",
+        Node::Scalar { text, style: Style::Plain, .. } if text == "~" || text.eq_ignore_ascii_case("null") => "plain-null",
+        Node::Scalar { style: Style::Plain, .. } => "plain-scalar",
+        Node::Scalar { text, .. } if text.is_empty() || text == "~" || text.eq_ignore_ascii_case("null") => "quoted-null-like",
+        Node::Scalar { .. } => "quoted-scalar",
+        Node::Seq { .. } => "seq",
+        Node::Map { .. } => "map",
+        Node::Alias(_) => "alias",
+    }
+}
+
+fn type_class(t: &Ty) -> &'static str {
+    match t.peel_newtypes() {
+        Ty::Str => "string",
+        Ty::Char => "char",
+        Ty::Bool => "bool",
+        Ty::F32 | Ty::F64 => "float",
+        Ty::Bytes => "bytes",
+        Ty::Unit | Ty::UnitStruct(_) => "unit",
+        Ty::Option(_) => "option",
+        Ty::Seq(_) => "seq",
+        Ty::Tuple(_) | Ty::TupleStruct(..) => "tuple",
+        Ty::Map(..) => "map",
+        Ty::Struct(_) => "struct",
+        Ty::Enum(_) => "enum",
+        _ => "int",
+    }
+}
+
+fn scalar_payloads() -> Vec<Node> {
+    let mut v = Vec::new();
+    for t in ["", "~", "null", "Null", "NULL", "s17", "17", "-3", "1.5", "true", "a", "V0", "x y", "0x1F"] {
+        for st in [Style::Plain, Style::Single, Style::Double] {
+            if st == Style::Plain && !(t.is_empty() || t == "~" || ydoc::plain_safe(t)) {
+                continue;
+            }
+            v.push(Node::styled(t, st));
+        }
+    }
+    v
+}
+
+fn container_payloads() -> Vec<Node> {
+    let p = Node::plain;
+    vec![
+        Node::seq(vec![]),
+        Node::seq(vec![p("1")]),
+        Node::seq(vec![p("1"), p("2")]),
+        Node::seq(vec![p("1"), p("a")]),
+        Node::seq(vec![p("a"), p("b")]),
+        Node::seq(vec![p("1"), p("a"), p("3")]),
+        Node::seq(vec![p("~")]),
+        Node::seq(vec![Node::seq(vec![p("1")]), p("2")]),
+        Node::map(vec![]),
+        Node::map(vec![(p("f0"), p("1"))]),
+        Node::map(vec![(p("f0"), p("1")), (p("f1"), p("a"))]),
+        Node::map(vec![(p("f0"), p("1")), (p("f9"), p("a"))]),
+        Node::map(vec![(p("a"), p("1"))]),
+        Node::map(vec![(p("a"), p("1")), (p("b"), p("2"))]),
+        Node::map(vec![(p("V0"), p("~"))]),
+    ]
+}
+
+/// `enum E0 { V0, V1(T), V2(i32, String), V3 { f0: i32, f1: Option<String> } }`
+fn notation_enum(t: Ty) -> Ty {
+    Ty::enumeration(
+        0,
+        0,
+        vec![
+            ty::VariantTy::Unit,
+            ty::VariantTy::Newtype(t),
+            ty::VariantTy::Tuple(vec![Ty::I32, Ty::Str]),
+            ty::VariantTy::Struct(ty::Fields::new(vec![Ty::I32, Ty::opt(Ty::Str)], false)),
+        ],
+    )
+}
+
+fn notation_payload_types() -> Vec<Ty> {
+    vec![
+        Ty::opt(Ty::Str),
+        Ty::opt(Ty::U32),
+        Ty::opt(Ty::I64),
+        Ty::opt(Ty::Bool),
+        Ty::opt(Ty::Char),
+        Ty::opt(Ty::seq(Ty::I32)),
+        Ty::Str,
+        Ty::I32,
+        Ty::U8,
+        Ty::F64,
+        Ty::Bool,
+        Ty::Char,
+        Ty::Unit,
+        Ty::UnitStruct(4),
+        Ty::Bytes,
+        Ty::seq(Ty::I32),
+        Ty::seq(Ty::Str),
+        Ty::seq(Ty::opt(Ty::I32)),
+        Ty::map(Ty::Str, Ty::I32),
+        Ty::Tuple(vec![Ty::I32, Ty::Str]),
+        Ty::strukt(1, vec![Ty::I32, Ty::opt(Ty::Str)], false),
+        Ty::newtype(2, Ty::opt(Ty::Str)),
+        Ty::enumeration(1, 4, vec![ty::VariantTy::Unit, ty::VariantTy::Newtype(Ty::I32)]),
+    ]
+}
+
+/// Relation: `!Variant P` and `{Variant: P}` denote the same value — equal Ok values or both Err —
+/// in every parent position. Both documents are also judged by the reference interpreter.
+#[allow(clippy::too_many_arguments)]
+fn check_notations(
+    run: &Run,
+    lo: &mut LeafOracle,
+    loc: &mut Local,
+    enum_ty: &Ty,
+    variant: usize,
+    payload: &Node,
+    ctx: usize,
+    flow: bool,
+    ro: &RenderOpts,
+    part: &'static str,
+) {
+    let Ty::Enum(e) = enum_ty else { return };
+    if matches!(payload, Node::Alias(_))
+        || matches!(payload, Node::Scalar { tag: Some(_), .. } | Node::Seq { tag: Some(_), .. } | Node::Map { tag: Some(_), .. })
+    {
+        return; // a node carries one tag only
+    }
+    let vname = e.names()[variant];
+    let tagged = payload.clone().with_tag(&format!("!{vname}"));
+    // An empty plain node is YAML null; the raw parser reports an empty mapping value as plain `~`,
+    // so the map-notation twin of the empty payload `!V` is `{V: }` == `{V: ~}`.
+    let map_payload = match payload {
+        Node::Scalar { text, style: Style::Plain, .. } if text.is_empty() => Node::plain("~"),
+        p => p.clone(),
+    };
+    let mapped = Node::map(vec![(Node::plain(vname), map_payload)]);
+    let (ty, wrap): (Ty, Box<dyn Fn(Node) -> Node>) = match ctx {
+        0 => (enum_ty.clone(), Box::new(|n| n)),
+        1 => (Ty::seq(enum_ty.clone()), Box::new(|n| Node::seq(vec![n]))),
+        2 => (Ty::map(Ty::Str, enum_ty.clone()), Box::new(|n| Node::map(vec![(Node::plain("k1"), n)]))),
+        _ => (Ty::Tuple(vec![enum_ty.clone(), Ty::I32]), Box::new(|n| Node::seq(vec![n, Node::plain("1777")]))),
+    };
+    let (Some(dt), Some(dm)) = (render(&wrap(tagged), flow, ro), render(&wrap(mapped), flow, ro)) else {
+        if std::env::var("C05_DEBUG").is_ok() {
+            let mut t = wrap(payload.clone().with_tag(&format!("!{vname}")));
+            t.set_flow(flow);
+            eprintln!("GENINV ctx={ctx} flow={flow} {:?}", ydoc::render(&t, ro).text);
+        }
+        run.inconclusive("generator-invalid: notation pair not parsed as intended");
+        return;
+    };
+    let vkind = match &e.variants[variant] {
+        ty::VariantTy::Unit => "unit",
+        ty::VariantTy::Newtype(_) => "newtype",
+        ty::VariantTy::Tuple(_) => "tuple",
+        ty::VariantTy::Struct(_) => "struct",
+    };
+    let tclass = match &e.variants[variant] {
+        ty::VariantTy::Newtype(t) => type_class(t),
+        _ => "-",
+    };
+    let pclass = payload_class(payload);
+    // each notation against the reference interpreter
+    for d in [&dt, &dm] {
+        let meta = CaseMeta { mode: "seed", edit: None, intent: None, exact: false, flow, part };
+        check_pair(run, lo, loc, &ty, d, &Runner::Seed, &meta);
+    }
+    // the two notations against each other
+    run.evals(2);
+    let (a, b) = match (run_seed(&ty, &dt), run_seed(&ty, &dm)) {
+        (Ok(a), Ok(b)) => (a, b),
+        _ => return, // panics were reported by check_pair
+    };
+    let case = || {
+        json!({"ty": ty.to_json(), "ty_text": ty.to_string(), "doc": dt, "doc_map_notation": dm, "mode": "seed",
+               "part": part, "flow": flow, "relation": "tag-notation == map-notation"})
+    };
+    let shape = match (&a, &b) {
+        (Ok(x), Ok(y)) if x == y => {
+            loc.count("notations/agree:value");
+            loc.observe("notation_pairs_ok", format!("{vkind}:{tclass}:{pclass}"));
+            return;
+        }
+        (Err(_), Err(_)) => {
+            loc.count("notations/agree:error");
+            return;
+        }
+        (Ok(_), Ok(_)) => "values-differ",
+        (Ok(_), Err(_)) => "tag-ok-map-err",
+        (Err(_), Ok(_)) => "tag-err-map-ok",
+    };
+    let show = |r: &Result<TVal, serde_saphyr::Error>| match r {
+        Ok(v) => format!("Ok({v:?})"),
+        Err(e) => format!("Err({})", vcore::errs::kind(e)),
+    };
+    // Signature classes. Two root causes get one signature each:
+    //  * a tag on a *mapping* node is not looked at by the enum reader at all;
+    //  * a tag-selected scalar payload is handed on as `!!str`, so a plain null becomes a string/char.
+    let sig = if pclass == "map" {
+        SIG_TAGGED_MAP.to_string()
+    } else if vkind == "newtype" && matches!(tclass, "string" | "char") && matches!(pclass, "plain-null" | "plain-empty") && shape == "tag-ok-map-err" {
+        SIG_TAGGED_NULL.to_string()
+    } else {
+        format!("C05:notations-disagree:{vkind}:{tclass}:{pclass}:{shape}")
+    };
+    report(run, &sig, case, || format!("`!{vname} P` gave {} | `{{{vname}: P}}` gave {}", show(&a), show(&b)));
 }
 
 // ------------------------------------------------------------------ workloads
@@ -598,6 +825,72 @@ fn main() {
         );
         loc.flush(&run);
     });
+
+    // ---- part D: `!Variant P` == `{Variant: P}` (metamorphic, no table): fixed product + random payloads
+    eprintln!("part C done at {:.1}s", run.elapsed_s());
+    {
+        let ptys = notation_payload_types();
+        let mut payloads = scalar_payloads();
+        payloads.extend(container_payloads());
+        run.count("notations/payload_pool", payloads.len() as u64);
+        run.count("notations/payload_types", ptys.len() as u64);
+        par_range(if part_on("D") { ptys.len() } else { 0 }, |i| {
+            let ety = notation_enum(ptys[i].clone());
+            let mut lo = LeafOracle::default();
+            let mut loc = Local::default();
+            // unit / tuple / struct variants do not depend on T: run them for the first T only
+            let variants: &[usize] = if i == 0 { &[0, 1, 2, 3] } else { &[1] };
+            for &v in variants {
+                for p in &payloads {
+                    for ctx in 0..4 {
+                        for flow in [false, true] {
+                            check_notations(&run, &mut lo, &mut loc, &ety, v, p, ctx, flow, &ro, "notations");
+                        }
+                    }
+                }
+            }
+            loc.flush(&run);
+        });
+        let n_rand = tier.pick(4_000, 60_000);
+        par_range(if part_on("D") { n_rand } else { 0 }, |i| {
+            let mut rng = Rng::stream(run.seed ^ 0x7A65, i as u64);
+            let cfg = TyCfg { nullable_in_option: rng.chance(1, 8), ..TyCfg::default() };
+            let d = rng.range(1, 3);
+            let pt = ty::random_ty_with(&mut rng, d, &cfg);
+            let ety = notation_enum(pt.clone());
+            let mut lo = LeafOracle::default();
+            let mut loc = Local::default();
+            // payload: a document for T (exact, or with one random near-miss edit)
+            let mut ch = Chooser::random(Rng::stream(run.seed ^ 0x7A66, i as u64));
+            let sites = {
+                let mut b = Builder::new(&mut ch, true, 2);
+                let _ = b.build(&pt);
+                b.sites
+            };
+            let mut all: Vec<(usize, Edit)> = Vec::new();
+            for (si, st) in sites.iter().enumerate() {
+                for (e, _) in &st.edits {
+                    all.push((si, e.clone()));
+                }
+            }
+            for k in 0..3 {
+                ch.rewind();
+                ch.frozen = true;
+                let node = {
+                    let mut b = Builder::new(&mut ch, true, 2);
+                    if k > 0 && !all.is_empty() {
+                        b.edit = Some(all[rng.below(all.len())].clone());
+                    }
+                    b.build(&pt)
+                };
+                ch.frozen = false;
+                let ctx = rng.below(4);
+                let flow = rng.chance(1, 3);
+                check_notations(&run, &mut lo, &mut loc, &ety, 1, &node, ctx, flow, &ro, "notations-random");
+            }
+            loc.flush(&run);
+        });
+    }
 
     let fin = Finish::new(
         "a case counts when the schema has depth >= 2 and the document is an exact match or exactly one near-miss edit away \
